@@ -327,7 +327,16 @@ def run_tlc(tla: str, cfg: Optional[str] = None, *, workers: int | str = int(os.
     elif not os.path.isabs(cfg):
         cfg = os.path.join(cwd, cfg)
     meta = tempfile.mkdtemp(prefix='tlcmeta-')
-    cmd = ['java', '-XX:+UseParallelGC', f'-Xmx{max_heap}', *java_opts, '-cp', f'{JAR}:{CM}', 'tlc2.TLC',
+    if os.path.exists(os.path.join(tempfile.gettempdir(), 'verif-tlc-throttle')):
+        try:
+            workers = min(int(workers), 4)
+        except ValueError:
+            workers = 4
+    try:
+        ncpu = max(2, int(workers))
+    except ValueError:
+        ncpu = 16
+    cmd = ['java', '-XX:+UseParallelGC', f'-XX:ActiveProcessorCount={ncpu}', f'-Xmx{max_heap}', *java_opts, '-cp', f'{JAR}:{CM}', 'tlc2.TLC',
            '-tool', '-metadir', meta, '-noGenerateSpecTE', '-workers', str(workers), '-config', cfg]
     if simulate is not None:
         cmd += ['-simulate', simulate]
@@ -350,8 +359,9 @@ def run_tlc(tla: str, cfg: Optional[str] = None, *, workers: int | str = int(os.
     e = dict(os.environ)
     if env:
         e.update({k: str(v) for k, v in env.items()})
-    t0 = time.time()
     res = TLCResult(ok=False, cmd=' '.join(cmd))
+    slot = _acquire_slot()
+    t0 = time.time()
     try:
         p = subprocess.run(cmd, cwd=cwd, env=e, stdout=subprocess.PIPE, stderr=subprocess.STDOUT,
                            timeout=timeout, text=True, errors='replace')
@@ -363,6 +373,7 @@ def run_tlc(tla: str, cfg: Optional[str] = None, *, workers: int | str = int(os.
         subprocess.run(['pkill', '-f', meta], check=False)
     finally:
         shutil.rmtree(meta, ignore_errors=True)
+        _release_slot(slot)
     res.wall_s = time.time() - t0
     res.raw = out
     _parse_tool_output(out, res, parse_traces=parse_traces)
@@ -375,6 +386,41 @@ def run_tlc(tla: str, cfg: Optional[str] = None, *, workers: int | str = int(os.
         msgs = '\n'.join(f'{i.name}: {i.message[:1500]}' for i in res.issues[:4])
         raise TLCError(f'TLC failed (rc={rc}) for {tla}:\n{msgs}\n...\n{out[-1500:] if not msgs else ""}')
     return res
+
+
+def _acquire_slot():
+    """Machine-wide throttle: at most VERIF_TLC_SLOTS TLC processes at a time (several checks may be
+    developed / run side by side on one box). 0 disables it."""
+    n = int(os.environ.get('VERIF_TLC_SLOTS', '0') or 0)
+    if n <= 0:
+        # development aid: a marker file (never present after a fresh restore) turns the throttle on
+        try:
+            with open(os.path.join(tempfile.gettempdir(), 'verif-tlc-throttle')) as fh:
+                n = int(fh.read().strip() or 0)
+        except (OSError, ValueError):
+            n = 0
+    if n <= 0:
+        return None
+    import fcntl
+    d = os.path.join(tempfile.gettempdir(), 'verif-tlc-slots')
+    os.makedirs(d, exist_ok=True)
+    while True:
+        for i in range(n):
+            fh = open(os.path.join(d, f'slot-{i}'), 'w')
+            try:
+                fcntl.flock(fh, fcntl.LOCK_EX | fcntl.LOCK_NB)
+                return fh
+            except OSError:
+                fh.close()
+        time.sleep(0.25)
+
+
+def _release_slot(fh):
+    if fh is not None:
+        try:
+            fh.close()
+        except Exception:
+            pass
 
 
 def sany(tla: str) -> None:
